@@ -339,38 +339,104 @@ func c19R3(c *Ctx) {
 	c.R.Floor("C19.R3", n, 2)
 }
 
+// pvArm: one type case of parseVal as its SX paths show it (result variables, single-exit style and helpers do not matter).
+type pvArm struct {
+	Name      string
+	T         types.Type
+	Container bool // the case type is one of the container interfaces
+	Operand   bool // the arm returns its operand itself, without effects
+	Fresh     bool // the arm returns something allocated inside the call
+	Pos       token.Pos
+}
+
+func parseValArms(c *Ctx) ([]pvArm, string) {
+	fd := c.Decl("parseVal")
+	if fd == nil {
+		return nil, "parseVal not found"
+	}
+	par := soleParam(c, fd)
+	if par == nil {
+		return nil, "parseVal does not take exactly one operand"
+	}
+	x := c.NewSX()
+	delete(x.NoInline, "parseVal")
+	x.budget = 200000
+	cps, why := c.typeCasePaths(fd, x, par)
+	if why != "" {
+		return nil, "body outside the path vocabulary: " + why
+	}
+	a := c.E3()
+	var out []pvArm
+	seen := map[string]bool{}
+	for _, cp := range cps {
+		if cp.None {
+			continue
+		}
+		name := "nil"
+		if !cp.IsNil {
+			name = shortType(cp.T)
+		}
+		p := cp.Path
+		arm := pvArm{Name: name, T: cp.T, Pos: posOfNode(p.Node)}
+		arm.Container = !cp.IsNil && c.Inv().ContByIface(cp.T) != nil
+		if p.End == "return" && len(p.Vals) == 1 {
+			res := p.Vals[0]
+			if sameTerm(res, cp.Assert) || sameTerm(res, TProj{cp.Assert, 0}) || isParamTerm(res, par) {
+				arm.Operand = len(p.Effects()) == 0
+			}
+			switch r := res.(type) {
+			case TCall:
+				if r.Fun != nil && r.Fun.Pkg() == c.Types {
+					if fn := a.ByObj(r.Fun); fn != nil && a.sum[fn] != nil && len(a.sum[fn].RetEach) > 0 {
+						arm.Fresh = true
+						for _, o := range a.sum[fn].RetEach {
+							if o&oROOTS != oFRESH {
+								arm.Fresh = false
+							}
+						}
+					}
+				}
+			case TAddr:
+				if lit, ok := r.X.(TLit); ok && lit.Fresh != 0 {
+					arm.Fresh = true
+				}
+			case TBuiltin:
+				arm.Fresh = r.Name == "new"
+			}
+		}
+		if seen[name] {
+			// the same case reached on a second path: every path must agree
+			for i := range out {
+				if out[i].Name == name {
+					out[i].Operand = out[i].Operand && arm.Operand
+					out[i].Fresh = out[i].Fresh && arm.Fresh
+				}
+			}
+			continue
+		}
+		seen[name] = true
+		out = append(out, arm)
+	}
+	return out, ""
+}
+
 func c19R4(c *Ctx) {
 	n := 0
 	fd := c.NeedDecl("C19.R4", "parseVal")
 	if fd == nil {
 		return
 	}
-	ts := findTypeSwitch(fd.Body)
-	if ts == nil {
-		c.Ob("C19.R4", "parseVal", fd.Pos()).Undecided("no type switch found")
+	arms, why := parseValArms(c)
+	if why != "" {
+		c.Ob("C19.R4", "parseVal", fd.Pos()).Undecided("%s", why)
 		return
 	}
-	bound := typeSwitchVar(c, ts)
-	for _, cl := range ts.Body.List {
-		cc := cl.(*ast.CaseClause)
-		for _, te := range cc.List {
-			t := c.typeOf(te)
-			if t == nil {
-				continue
-			}
-			ct := c.Inv().ContByIface(t)
-			if ct == nil {
-				continue
-			}
-			n++
-			ob := c.Ob("C19.R4", "parseVal/case "+shortType(t), cc.Pos())
-			ok := len(cc.List) == 1 && len(cc.Body) == 1
-			if ok {
-				r, isRet := cc.Body[0].(*ast.ReturnStmt)
-				ok = isRet && len(r.Results) == 1 && isSwitchVar(c, r.Results[0], bound, cc)
-			}
-			ob.Check(ok, "returns the operand itself (the stored field IS the value handed in, outer identity kept)", "the "+shortType(t)+" arm of parseVal does not return its operand unchanged")
+	for _, arm := range arms {
+		if !arm.Container {
+			continue
 		}
+		n++
+		c.Ob("C19.R4", "parseVal/case "+arm.Name, arm.Pos).Check(arm.Operand, "returns the operand itself (the stored field IS the value handed in, outer identity kept)", "the "+arm.Name+" arm of parseVal does not return its operand unchanged")
 	}
 	c.R.Floor("C19.R4", n, 2)
 }
